@@ -286,7 +286,7 @@ func checkC08(c *Ctx) {
 	// alive definition
 	var aliveFn *ssa.Function
 	for _, f := range p.Funcs {
-		if f.Name() == "AlivePlayers" && f.Signature.Recv() != nil {
+		if fnName(f) == "AlivePlayers" && f.Signature.Recv() != nil {
 			aliveFn = f
 		}
 	}
